@@ -28,3 +28,13 @@ Print Assumptions C02_kept_edges_are_the_non_ignored_edges.
 Example C02_walk_premises_satisfiable :
   wf_stg loopG /\ sat loop_sol (encode_kfdc (loop_inst 1)) /\ sat loop_sol (encode_kpcc loop_kpcc).
 Proof. split; [exact loopG_wf|]. split; [exact loop_feasible|exact loop_kpcc_feasible]. Qed.
+
+(* ---- audit: the hypothesis of C02_kfdc_rows_force_flow with a kept edge (the self-loop of flow 1): the explained flow is 1 * 1 ---- *)
+Example C02_walk_kept_edge_is_explained :
+  sat loop_sol (encode_kfdc (loop_inst 1)) /\ In (0, 0)%N (kept_edges (loop_inst 1)) /\
+  (sumq (fun i => loop_sol (W i) * inject_Z (xint loop_sol i (0, 0)%N)) (layers (c_k (loop_inst 1))) == 1)%Q.
+Proof.
+  assert (Hk : In (0, 0)%N (kept_edges (loop_inst 1))) by (vm_compute; tauto).
+  split; [exact loop_feasible|]. split; [exact Hk|]. rewrite (C02_kfdc_rows_force_flow (loop_inst 1) loop_sol loop_feasible (0, 0)%N Hk). vm_compute. reflexivity.
+Qed.
+Print Assumptions C02_walk_kept_edge_is_explained.
